@@ -22,7 +22,7 @@
 (*  "tier_promotion_overwrites_newer_write"  a get that hit L2 promotes the  *)
 (*      value it captured before its cache latency into L1 even if a put of  *)
 (*      the key landed meanwhile (the put invalidated L2 and wrote L1).      *)
-(*      Design without it: no promotion if a put of k landed since.          *)
+(*      Design without it: no promotion if the tier no longer holds k.       *)
 (* L1.put() writes the value to the shared backing store a second time one   *)
 (* write latency after the first write (both tiers are write-through stores   *)
 (* over the same KVStore); the put completes after that second write, so the  *)
@@ -70,7 +70,7 @@ MSeg(g, s, op, now) ==
             ELSE {MOut(s0, [op EXCEPT !.st = "fetch"], FALSE, 0, "RL")}
       [] op.kind = "get" /\ op.st = "thit" ->
             IF op.tier = 2 /\ ShouldPromote(g, s, k)
-            THEN LET stale == s.gen[k] # op.g0 IN
+            THEN LET stale == s.t2.cache[k] = 0 IN      \* the tier dropped the key during its latency
                  IF stale /\ T1 \notin g.dev THEN {MOut(s, op, TRUE, op.x, "-")}
                  ELSE { MOut(IF stale THEN MTaint([s EXCEPT !.t1 = x], k, T1) ELSE [s EXCEPT !.t1 = x],
                              op, TRUE, op.x, "-")
